@@ -228,7 +228,7 @@ func (P) Generate(g *core.Gen) {
 		}
 	}
 	// 2. random scripts, every configuration.
-	for i, n := 0, g.N(2000, 40000); i < n; i++ {
+	for i, n := 0, g.N(2000, 30000); i < n; i++ {
 		in := r.Bool()
 		ours := oursEdges[r.Intn(len(oursEdges))]
 		theirs := pverEdges[r.Intn(len(pverEdges))]
@@ -283,19 +283,23 @@ func (P) Generate(g *core.Gen) {
 		}
 	}
 	// 4. pipeline scenarios: run on the real peer now; the observed trace goes on the line.
-	for i, n := 0, g.N(220, 6000); i < n; i++ {
+	for i, n := 0, g.N(220, 3000); i < n; i++ {
 		c := pipeCfg{nProd: 1 + r.Intn(8), nMsg: 1 + r.Intn(12), seed: r.U64(), invCallers: r.Intn(3)}
 		switch x := r.Intn(20); {
 		case x < 9:
 			c.mode = 0
-		case x < 14:
+		case x < 12:
 			c.mode = 1
-		case x < 17:
+		case x < 14:
 			c.mode = 2
-		case x < 18:
+		case x < 15:
 			c.mode = 3
-		default:
+		case x < 16:
 			c.mode = 4
+		case x < 18:
+			c.mode = 5
+		default:
+			c.mode = 6
 		}
 		if r.Chance(1, 10) {
 			c.nProd, c.nMsg = 8+r.Intn(9), 10+r.Intn(20)
